@@ -408,9 +408,12 @@ class TsonisFamily(ClimateFamily):
         from pyunicorn.climate import TsonisClimateNetwork
         return TsonisClimateNetwork
 
+    def data(self):
+        return _data12()
+
     def build(self, a):
         from pyunicorn.climate import ClimateData
-        cd = ClimateData(_data12(), _grid(t=24), 12, silence_level=3)
+        cd = ClimateData(self.data(), _grid(t=24), 12, silence_level=3)
         kw = {a["MODE"]: CLIM_PARAM[a["MODE"]][a["P"]]}
         for key, arg in self.extra.items():
             kw[arg] = bool(a[key])
@@ -437,6 +440,16 @@ class TsonisFamily(ClimateFamily):
 class HilbertFamily(TsonisFamily):
     name = "hilbert"
     extra = {"DIR": "directed"}
+
+    def data(self):
+        """Two of the six series are bit-identical (a duplicated record): coherence 1, phase shift exactly 0 -
+        a directed network has no link between them in either direction, an undirected one has."""
+        # (values in quarters: for this data the rounding residue of the phase of the identical pair is not positive
+        # in either direction, so the directed network has NO link between the two - the case a re-orientation of
+        # existing links cannot recover)
+        d = np.round(_data12() * 4.0) / 4.0
+        d[:, 5] = d[:, 0]
+        return d
 
     def cls(self):
         from pyunicorn.climate import HilbertClimateNetwork
@@ -501,9 +514,12 @@ class HavlinFamily(TsonisFamily):
         from pyunicorn.climate import HavlinClimateNetwork
         return HavlinClimateNetwork
 
+    def data(self):
+        return _data12()
+
     def build(self, a):
         from pyunicorn.climate import ClimateData
-        cd = ClimateData(_data12(), _grid(t=24), 12, silence_level=3)
+        cd = ClimateData(self.data(), _grid(t=24), 12, silence_level=3)
         kw = {a["MODE"]: CLIM_PARAM[a["MODE"]][a["P"]]}
         return self.cls()(cd, self.DELAY[a["MD"]], non_local=bool(a["NL"]), silence_level=3, **kw)
 
